@@ -151,7 +151,8 @@ class AbstractPairing(metaclass=ABCMeta):
         """Process any disconnected events that are available."""
 
     def _callback_listeners(self, event):
-        for listener in self.listeners:
+        # Iterate over a copy as a listener may unregister itself (or another) when called
+        for listener in list(self.listeners):
             try:
                 logger.debug("callback ev:%s", event)
                 listener(event)
